@@ -232,7 +232,7 @@ def rule_wire_indexed_buffers(ctx):
             ok = size >= need
             ctx.ob(R, "slice in %s" % f.qname.split("::", 1)[-1][-50:], ok, "buffer of %d bytes sliced by a %s length (max %d)" % (size, wire[0].split("::")[0], need) if ok else
                    "a %d-byte buffer is sliced by a length decoded with %s (up to %d): lengths above the buffer size panic" % (size, wire[0], need), f.loc(c["t"].get("ln")))
-    ctx.floor(R, "wire-length slices of fixed buffers", n, 2)
+    ctx.floor(R, "wire-length slices of fixed buffers", n, 1)
 
 
 RULES += [("C10.5", rule_wire_indexed_buffers)]
